@@ -1,4 +1,5 @@
 import Hifi.Lemmas.Leap
+import Hifi.Lemmas.LeapFile
 /-
   C06  UTC ↔ TAI follows the IERS leap-second table exactly, in both directions.
 -/
@@ -73,6 +74,14 @@ theorem builtin_L_eq_spec (u : Int) : Ldesc builtinDesc u = leapAt iersTbl u * 1
 /-- the SOFA pre-1972 entries cannot influence an IERS-only lookup — for EVERY table -/
 theorem sofa_entries_do_not_influence (t : Dur) (tbl : List LeapEntry) :
     leapLookup t true tbl = leapLookup t false (tbl.filter LeapEntry.iers) := leapLookup_filter t tbl
+
+/-- a provider loaded from an IERS-format file holds exactly the entries of the file: for EVERY table of
+    (u64 time stamp, u8 offset) pairs, loading its IERS-format rendering (comment header, then
+    `ts<TAB>offset<TAB># …` lines) with the model of `LeapSecondsFile::from_path` returns that table -/
+theorem file_provider_loads_what_is_written (tbl : List (Nat × Nat))
+    (h : ∀ e ∈ tbl, e.1 ≤ 18446744073709551615 ∧ e.2 ≤ 255) :
+    Hifi.LeapFile.parseFile (Hifi.LeapFile.renderFile tbl) = .ok tbl :=
+  Hifi.LeapFile.parseFile_renderFile tbl h
 
 /-! ### UTC → TAI -/
 
